@@ -424,7 +424,10 @@ Qed.
 Theorem retry_events_pair_up fuel stack now ext key b l k c script :
   forall pos, st pos (w_trace (drain (snd (execute fuel stack (fresh_world now ext key b l k c script))))) <> None.
 Proof.
-  assert (J0 : J (fresh_world now ext key b l k c script)) by (intros pos; cbn; discriminate).
+  assert (J0 : J (fresh_world now ext key b l k c script)).
+  { assert (J00 : J (fresh_world0 now ext key b l k c script)) by (intros pos; cbn; discriminate).
+    unfold fresh_world. destruct ext as [[t e]|]; [|exact J00]. destruct (t <=? now); [|exact J00].
+    apply (same_fire_ext Jrel j_refl j_trans j_frame); exact J00. }
   change (J (drain (snd (execute fuel stack (fresh_world now ext key b l k c script))))). apply J_drain.
   unfold execute.
   pose proof (compose_J fuel stack 0 (length stack) 0%nat _ J0) as J1.
